@@ -1182,7 +1182,7 @@ func (p *Parser) parseSelectWithSetOperations() (ast.Statement, error) {
 		// Create the set operation with left as the accumulated result
 		setOp := &ast.SetOperation{
 			Left:     leftStmt,
-			Operator: operationLiteral,
+			Operator: strings.ToUpper(operationLiteral), // canonical spelling, however the keyword was written
 			All:      all,
 			Right:    rightStmt,
 		}
